@@ -256,29 +256,52 @@ Proof.
   - intros H. inversion H; subst. apply andb_true_iff. split; [apply N.eqb_refl|now apply IH].
 Qed.
 
-Theorem planner_refuted_proof : exists pk_paths dp, child_of pk_paths dp = RPanic P_SUB_UNDERFLOW.
-Proof. exists [[]], [1; 2]. vm_compute. reflexivity. Qed.
-
-(* the concrete finding: descriptor key = raw key (one empty full derivation path), asset key
-   [fp(K)/1]xpub/2 (key source (fp(K), m/1/2)) able to sign ECDSA: has_ecdsa_key panics *)
-Theorem planner_refuted_assets_proof : forall fp, has_ecdsa_key [mkAssetKey fp [1; 2] true] fp [[]] = RPanic P_SUB_UNDERFLOW.
+(* is_key_direct_child_of as written: total, and exactly the relation of its doc comment *)
+Theorem planner_total_proof : forall pk_paths dp,
+  exists b, child_of pk_paths dp = ROk b /\ (b = true <-> child_of_spec pk_paths dp).
 Proof.
-  intros fp. cbn [has_ecdsa_key ak_ecdsa ak_fp ak_path andb]. rewrite N.eqb_refl. reflexivity.
+  induction pk_paths as [|p rest IH]; intros dp.
+  - exists false. split; [reflexivity|]. split; [discriminate|]. intros (p & [] & _).
+  - cbn [child_of]. destruct (dpath_eqb p dp) eqn:E.
+    + exists true. split; [reflexivity|]. split; [|reflexivity]. intros _. apply dpath_eqb_eq in E. exists p. split; [now left|now left].
+    + assert (Hne : p <> dp). { intros ->. rewrite (proj2 (dpath_eqb_eq dp dp) eq_refl) in E. discriminate. }
+      destruct p as [|x r]; cbn [split_last_parent].
+      * destruct (IH dp) as (b & Hb & Hs). exists b. split; [exact Hb|]. rewrite Hs. unfold child_of_spec. split.
+        -- intros (q & Hq & Hc). exists q. split; [now right|exact Hc].
+        -- intros (q & [Hq|Hq] & Hc); [subst q|exists q; tauto].
+           destruct Hc as [Hc|[Hc _]]; congruence.
+      * destruct (dpath_eqb dp (removelast (x :: r))) eqn:E2.
+        -- exists true. split; [reflexivity|]. split; [|reflexivity]. intros _. apply dpath_eqb_eq in E2.
+           exists (x :: r). split; [now left|]. right. split; [discriminate|congruence].
+        -- destruct (IH dp) as (b & Hb & Hs). exists b. split; [exact Hb|]. rewrite Hs. unfold child_of_spec. split.
+           ++ intros (q & Hq & Hc). exists q. split; [now right|exact Hc].
+           ++ intros (q & [Hq|Hq] & Hc); [subst q|exists q; tauto].
+              destruct Hc as [Hc|[_ Hc]]; [congruence|].
+              rewrite <- Hc in E2. rewrite (proj2 (dpath_eqb_eq _ _) eq_refl) in E2. discriminate.
 Qed.
 
-(* the panic is reachable EXACTLY when an empty path is examined before a match is found *)
-Lemma child_of_panic_iff : forall pk_paths dp s,
-  child_of pk_paths dp = RPanic s ->
-  s = P_SUB_UNDERFLOW /\ In [] pk_paths /\ dp <> [].
+(* Assets::has_ecdsa_key (the `any` over the asset keys) never panics either, and is true
+   exactly when some ECDSA-capable asset key with the key's fingerprint is a direct parent *)
+Theorem planner_has_key_total_proof : forall keys pk_fp pk_paths,
+  exists b, has_ecdsa_key keys pk_fp pk_paths = ROk b /\
+    (b = true <-> exists a, In a keys /\ ak_ecdsa a = true /\ pk_fp = ak_fp a /\ child_of_spec pk_paths (ak_path a)).
 Proof.
-  induction pk_paths as [|p rest IH]; intros dp s H; cbn [child_of] in H; [discriminate|].
-  destruct (dpath_eqb p dp) eqn:E; [discriminate|].
-  unfold sub_partial in H. destruct (nlen p <? 1) eqn:L; cbn [rbind] in H.
-  - inversion H; subst. split; [reflexivity|]. apply N.ltb_lt in L.
-    assert (p = []). { destruct p; [reflexivity|]. rewrite nlen_cons in L. lia. } subst p.
-    split; [now left|]. intros ->. cbn in E. discriminate.
-  - apply N.ltb_ge in L. rewrite slice_to_ok in H by lia. cbn [rbind] in H.
-    destruct (dpath_eqb dp _); [discriminate|]. apply IH in H. destruct H as (H1 & H2 & H3). repeat split; auto. now right.
+  induction keys as [|a rest IH]; intros pk_fp pk_paths.
+  - exists false. split; [reflexivity|]. split; [discriminate|]. intros (a & [] & _).
+  - cbn [has_ecdsa_key]. destruct (IH pk_fp pk_paths) as (b & Hb & Hs).
+    destruct (ak_ecdsa a && (pk_fp =? ak_fp a)) eqn:E.
+    + apply andb_true_iff in E. destruct E as [E1 E2]. apply N.eqb_eq in E2.
+      destruct (planner_total_proof pk_paths (ak_path a)) as (c & Hc & Hcs). rewrite Hc. cbn [rbind].
+      destruct c.
+      * exists true. split; [reflexivity|]. split; [|reflexivity]. intros _. exists a. split; [now left|]. repeat split; auto. now apply Hcs.
+      * exists b. split; [exact Hb|]. rewrite Hs. split.
+        -- intros (a' & Ha & H'). exists a'. split; [now right|exact H'].
+        -- intros (a' & [Ha|Ha] & H1 & H2 & H3); [subst a'|exists a'; tauto].
+           apply Hcs in H3. discriminate.
+    + exists b. split; [exact Hb|]. rewrite Hs. split.
+      * intros (a' & Ha & H'). exists a'. split; [now right|exact H'].
+      * intros (a' & [Ha|Ha] & H1 & H2 & H3); [subst a'|exists a'; tauto].
+        rewrite H1 in E. cbn [andb] in E. apply N.eqb_neq in E. congruence.
 Qed.
 
 Lemma firstn_pred_removelast : forall (p : dpath), p <> [] -> firstn (N.to_nat (nlen p - 1)) p = removelast p.
@@ -291,41 +314,22 @@ Proof.
     f_equal. apply IH. discriminate.
 Qed.
 
-Theorem planner_total_proof : forall pk_paths dp,
-  exists b, child_of_fixed pk_paths dp = ROk b /\ (b = true <-> child_of_spec pk_paths dp).
+(* the repair 540253fb changed nothing where the earlier code returned *)
+Theorem planner_repair_conservative_proof : forall pk_paths dp b,
+  child_of_before_540253fb pk_paths dp = ROk b -> child_of pk_paths dp = ROk b.
 Proof.
-  induction pk_paths as [|p rest IH]; intros dp.
-  - exists false. split; [reflexivity|]. split; [discriminate|]. intros (p & [] & _).
-  - cbn [child_of_fixed]. destruct (dpath_eqb p dp) eqn:E.
-    + exists true. split; [reflexivity|]. split; [|reflexivity]. intros _. apply dpath_eqb_eq in E. exists p. split; [now left|now left].
-    + assert (Hne : p <> dp). { intros ->. rewrite (proj2 (dpath_eqb_eq dp dp) eq_refl) in E. discriminate. }
-      destruct p as [|x r].
-      * destruct (IH dp) as (b & Hb & Hs). exists b. split; [exact Hb|]. rewrite Hs. unfold child_of_spec. split.
-        -- intros (q & Hq & Hc). exists q. split; [now right|exact Hc].
-        -- intros (q & [Hq|Hq] & Hc); [subst q|exists q; tauto].
-           destruct Hc as [Hc|[Hc _]]; congruence.
-      * unfold sub_partial. assert (L : nlen (x :: r) <? 1 = false). { apply N.ltb_ge. rewrite nlen_cons. lia. }
-        rewrite L. cbn [rbind]. rewrite slice_to_ok by lia. cbn [rbind].
-        rewrite firstn_pred_removelast by discriminate.
-        destruct (dpath_eqb dp (removelast (x :: r))) eqn:E2.
-        -- exists true. split; [reflexivity|]. split; [|reflexivity]. intros _. apply dpath_eqb_eq in E2.
-           exists (x :: r). split; [now left|]. right. split; [discriminate|congruence].
-        -- destruct (IH dp) as (b & Hb & Hs). exists b. split; [exact Hb|]. rewrite Hs. unfold child_of_spec. split.
-           ++ intros (q & Hq & Hc). exists q. split; [now right|exact Hc].
-           ++ intros (q & [Hq|Hq] & Hc); [subst q|exists q; tauto].
-              destruct Hc as [Hc|[_ Hc]]; [congruence|].
-              rewrite <- Hc in E2. rewrite (proj2 (dpath_eqb_eq _ _) eq_refl) in E2. discriminate.
-Qed.
-
-(* the repair changes nothing where the original code returns *)
-Theorem planner_fix_conservative_proof : forall pk_paths dp b,
-  child_of pk_paths dp = ROk b -> child_of_fixed pk_paths dp = ROk b.
-Proof.
-  induction pk_paths as [|p rest IH]; intros dp b H; cbn [child_of child_of_fixed] in *; [exact H|].
+  induction pk_paths as [|p rest IH]; intros dp b H; cbn [child_of child_of_before_540253fb] in *; [exact H|].
   destruct (dpath_eqb p dp); [exact H|].
   destruct p as [|x r].
   - unfold sub_partial in H. cbn in H. discriminate.
-  - unfold sub_partial in *. destruct (nlen (x :: r) <? 1); cbn [rbind] in *; [discriminate|].
-    destruct (slice_to (x :: r) (nlen (x :: r) - 1)); cbn [rbind] in *; try discriminate.
-    destruct (dpath_eqb dp a); [exact H|]. now apply IH.
+  - cbn [split_last_parent]. unfold sub_partial in H.
+    assert (L : nlen (x :: r) <? 1 = false). { apply N.ltb_ge. rewrite nlen_cons. lia. }
+    rewrite L in H. cbn [rbind] in H. rewrite slice_to_ok in H by lia. cbn [rbind] in H.
+    rewrite firstn_pred_removelast in H by discriminate.
+    destruct (dpath_eqb dp (removelast (x :: r))); [exact H|]. now apply IH.
 Qed.
+
+(* ... and what it repaired: the earlier code panicked exactly on an empty key path met by a
+   different, non-empty asset path (regression witness used by the tie's diagnosis) *)
+Lemma planner_before_repair_panicked : child_of_before_540253fb [[]] [1; 2] = RPanic P_SUB_UNDERFLOW.
+Proof. vm_compute. reflexivity. Qed.
